@@ -61,7 +61,8 @@ def expected_attrs(v: dict, ebgp: bool, local_as: int) -> dict:
     a = {'origin': {'igp': 0, 'egp': 1, 'incomplete': 2}[v.get('origin') or 'igp'], 'med': v['med']}
     path = list(v.get('aspath') or [])
     if ebgp:
-        path = [local_as] + path
+        if not path:
+            path = [local_as]  # an AS_PATH the operator wrote goes out as written (exabgp injects, it does not prepend)
         # no LOCAL_PREF on eBGP
     else:
         a['local_pref'] = v['lp'] if v.get('lp') is not None else 100
@@ -145,6 +146,25 @@ def reported_table(neighbor, addpath: bool) -> dict:
 
 def peer_view(table: R.PeerTable) -> dict:
     return {k: ((v['next_hop'][0] if v['next_hop'] else None), v['attrs'].get('med')) for k, v in table.routes.items()}
+
+
+def attrs_mismatch(table: R.PeerTable, variants: list[dict], nb: dict) -> str | None:
+    """every route the peer holds carries exactly the attribute values of the operator's variant its MED names (MEDs are
+    unique per variant), with the RFC defaults of that session for the rest - nothing of another variant mixed in"""
+    ebgp = nb['peer_as'] != nb.get('local_as', 65001)
+    by_med = {v['med']: v for v in variants}
+    for k, r in sorted(table.routes.items(), key=str):
+        a = r['attrs']
+        v = by_med.get(a.get('med'))
+        if v is None:
+            return f'{fmt_key(k)}: MED {a.get("med")} names no variant the operator ever used'
+        want = expected_attrs(v, ebgp, nb.get('local_as', 65001))
+        have = dict(a)
+        have.setdefault('as_path', [])
+        if have != want:
+            bad = sorted(x for x in set(have) | set(want) if have.get(x) != want.get(x))
+            return f'{fmt_key(k)} (variant med {v["med"]}): ' + '; '.join(f'{x}: peer holds {have.get(x)} operator asked {want.get(x)}' for x in bad[:3])
+    return None
 
 
 def fmt_key(k) -> str:
